@@ -17,6 +17,8 @@ import (
 	"github.com/taskctl/taskctl/pkg/runner"
 	"github.com/taskctl/taskctl/pkg/scheduler"
 	"github.com/taskctl/taskctl/pkg/task"
+	"github.com/taskctl/taskctl/pkg/utils"
+	"github.com/taskctl/taskctl/pkg/variables"
 
 	"verif/internal/h"
 )
@@ -34,6 +36,7 @@ type cancelSpec struct {
 	Allow       bool   `json:"allow_failure"`
 	Interactive bool   `json:"interactive,omitempty"`
 	Shared      bool   `json:"included_twice,omitempty"` // with Nested: two stages of the outer pipeline include it
+	Prelude     string `json:"prelude,omitempty"`        // a run that fails early on the same runner before the scenario starts
 	TaskTimeout bool   `json:"task_timeout,omitempty"`   // the tasks have a (long) timeout of their own
 	Nested      bool   `json:"nested,omitempty"`         // the whole pipeline is included by a stage of an outer pipeline
 }
@@ -190,6 +193,20 @@ func modeCancel1(a args) {
 		}
 		defer pw.Close()
 		tr.Stdin = pr
+	}
+	if sp.Prelude != "" {
+		// an earlier run on this runner ended before it really began (unknown context, context that cannot be
+		// brought up, failing context hook): nothing of it is in flight afterwards
+		tr.SetContexts(map[string]*runner.ExecutionContext{
+			"bad-up":     runner.NewExecutionContext(&utils.Binary{}, "", variables.NewVariables(), []string{"exit 1"}, nil, nil, nil),
+			"bad-before": runner.NewExecutionContext(&utils.Binary{}, "", variables.NewVariables(), nil, nil, []string{"exit 1"}, nil),
+		})
+		pt := task.FromCommands("true")
+		pt.Name = "prelude"
+		pt.Context = map[string]string{"unknown-context": "no-such-context", "up-fails": "bad-up", "before-fails": "bad-before"}[sp.Prelude]
+		if err := tr.Run(pt); err == nil {
+			out.Inconclusive(a.Prop, "prelude run ("+sp.Prelude+") did not fail")
+		}
 	}
 	mkTask := func(id string) *task.Task {
 		t := task.NewTask()
